@@ -82,7 +82,7 @@ Section SM4Inst.
     cbc_encrypt_stream E iv chunks = Some (cbc_padding_encrypt E iv (concat chunks)).
   Proof. eapply (cbc_encrypt_stream_eq E D); sm4fin. Qed.
   Theorem sm4_cbc_decrypt_stream_eq iv chunks : length iv = 16 ->
-    cbc_decrypt_stream D iv chunks = cbc_padding_decrypt D iv (concat chunks).
+    cbc_decrypt_stream D iv chunks = sm4_cbc_padding_decrypt D iv (concat chunks).
   Proof. eapply (cbc_decrypt_stream_eq E D); sm4fin. Qed.
   Theorem sm4_cbc_encrypt_written iv chunks d :
     match buf_run 16 false (cbc_enc_crypt E) (cbc_init iv) chunks with
@@ -98,12 +98,12 @@ Section SM4Inst.
   Proof. eapply (cbc_decrypt_written E D); sm4fin. Qed.
   Theorem sm4_cbc_padding_encrypt_eq_spec iv m : cbc_padding_encrypt E iv m = cbc_pad_enc_spec E iv m.
   Proof. eapply (cbc_padding_encrypt_eq_spec E D); sm4fin. Qed.
-  Theorem sm4_cbc_padding_decrypt_eq_spec iv c : length iv = 16 ->
-    cbc_padding_decrypt D iv c = cbc_pad_dec_spec D iv c.
-  Proof. eapply (cbc_padding_decrypt_eq_spec E D); sm4fin. Qed.
-  Theorem sm4_cbc_dec_enc iv m : length iv = 16 -> bytes_ok iv = true -> bytes_ok m = true ->
-    cbc_padding_decrypt D iv (cbc_padding_encrypt E iv m) = Some m.
-  Proof. eapply (cbc_dec_enc E D); sm4fin. Qed.
+  Theorem sm4i_cbc_padding_decrypt_eq_spec iv c : length iv = 16 ->
+    sm4_cbc_padding_decrypt D iv c = cbc_pad_dec_spec_strict D iv c.
+  Proof. eapply (sm4_cbc_padding_decrypt_eq_spec E D); sm4fin. Qed.
+  Theorem sm4i_cbc_dec_enc iv m : length iv = 16 -> bytes_ok iv = true -> bytes_ok m = true ->
+    sm4_cbc_padding_decrypt D iv (cbc_padding_encrypt E iv m) = Some m.
+  Proof. eapply (sm4_cbc_dec_enc E D); sm4fin. Qed.
 
   (* ---- CTR / CTR32 ---- *)
   Theorem sm4_ctr_stream_eq ctr chunks : ok16 ctr ->
@@ -317,3 +317,8 @@ Proof.
   - rewrite (xts_encrypt_raw_eq_spec (implE key1) (implD key1) (implE key2) xts_mul2 tweak m Hm). apply xts_enc_spec_ext; assumption.
   - rewrite (xts_decrypt_raw_eq_spec (implE key1) (implD key1) (implE key2) xts_mul2 tweak m Hm). apply xts_dec_spec_ext; assumption.
 Qed.
+
+(* the characterisation of strict PKCS#7 removal does not depend on any block function *)
+Theorem pkcs7_unpad_strict_char P m :
+  pkcs7_unpad_strict P = Some m <-> exists p, 1 <= p <= 16 /\ P = m ++ repeat (N.of_nat p) p.
+Proof. exact (pkcs7_unpad_strict_iff (implE []) (implD []) (implE_len []) (implD_len []) (implE_ok []) (implDE []) P m). Qed.
